@@ -205,8 +205,13 @@ Definition kr_valence (g g' : mol) : bool :=
   forallb (fun x => if arom_deg (snd x) =? 0 then true
                     else match atom_of g' (fst x) with Some a' => h_known a' | None => false end) (m_adj g).
 
-Definition kekule_rel_noh (g g' : mol) : bool := kr_atoms g g' && kr_bonds g g' && kr_classes g g' && kr_valence g g'.
+(* core: same molecule, only aromatic bonds re-written, every ring atom has the number of double bonds of its class *)
+Definition kekule_rel_core (g g' : mol) : bool := kr_atoms g g' && kr_bonds g g' && kr_classes g g'.
+Definition kekule_rel_noh (g g' : mol) : bool := kekule_rel_core g g' && kr_valence g g'.
 Definition kekule_rel (g g' : mol) : bool := kekule_rel_noh g g' && kr_h g g'.
+(* the relation with the clauses switched off that a recorded finding is about (the check reports those itself) *)
+Definition kekule_rel_x (skip_h skip_valence : bool) (g g' : mol) : bool :=
+  kekule_rel_core g g' && (skip_valence || kr_valence g g') && (skip_h || kr_h g g').
 
 Definition no_arom (g : mol) : bool := forallb (fun x => arom_deg (snd x) =? 0) (m_adj g).
 
